@@ -3,6 +3,7 @@ mod engine;
 mod filler;
 mod fixtures;
 mod props;
+mod srv;
 include!(concat!(env!("OUT_DIR"), "/service_fillers.rs"));
 
 use engine::*;
